@@ -133,6 +133,20 @@ class Executor(ExprMixin, CallMixin, LoopMixin):
     def s_Expr(self, node, st):
         if isinstance(node.value, ast.Constant):
             return [(st, NORMAL)]           # docstring
+        if isinstance(node.value, ast.Yield):
+            # generator function: the values yielded so far are the ghost sequence gen.out (the consumer is not modelled: a
+            # generator body runs to completion between observations, values are immutable FmtStr)
+            v = self.ev(node.value.value, st) if node.value.value is not None else None
+            if not (isinstance(v, Sym) and v.tag == "fmtstr"):
+                raise Unsupported("yield of a value other than a FmtStr")
+            out = st.ghost.get("gen.out", z3.Empty(T.SF))
+            new = z3.Concat(out, z3.Unit(v.t))
+            st.fact(T.Lemmas.flat_append(new, out, v.t))
+            st.ghost["gen.out"] = new
+            hook = getattr(self.contract, "on_yield", None)
+            if hook is not None:
+                hook(st, v, self)
+            return [(st, NORMAL)]
         if self._is_logger_call(node.value):
             return [(st, NORMAL)]           # dropped: logger.* assumed effect-free (DESIGN 2.1)
         self.ev(node.value, st)
